@@ -61,6 +61,26 @@ let () =
           | PRfail_producer -> Printf.printf "%s FAILPRODUCER\n" id
           | PRfail_invalid s -> Printf.printf "%s FAILINVALID %d\n" id (i s)
           | PRoob s -> Printf.printf "%s OOB %d\n" id (i s))
+       | ["FH"; id; rep; stored] ->
+         (* round 3: history kept after a block that fell back to the internal parser (ZSTD_buildSeqStore since a9c9307) *)
+         Printf.printf "%s %s\n" id (rep_str (fallback_history (parse_rep rep) (parse_sseqs stored)))
+       | ["PF"; id; wlog; mm; vl; dict; maxnb; fixed; ers; fb; fbfix; atpos; rep; dec; calls] ->
+         (* round 3: whole producer frame with fallback blocks; calls = nb/cap/srcsize/seqs/fbstored/fblastll joined by '|' *)
+         let cfg = { g_wlog = n wlog; g_minMatch = n mm; g_validate = b vl; g_producer = true; g_dict = n dict;
+                     g_maxNbSeq = n maxnb; g_fixed = b fixed } in
+         let cl = if calls = "-" then [] else List.map (fun c -> match String.split_on_char '/' c with
+             | [nb; cap; sz; seqs; fbs; fbl] ->
+               let fp = { fp_seqs = parse_sseqs fbs; fp_lastLL = n fbl; fp_rep01 = (N0, N0) } in
+               { px_call = { pc_buf = parse_seqs seqs; pc_nb = n nb; pc_cap = n cap; pc_size = n sz }; px_parser = (fun _ -> fp) }
+             | _ -> failwith "bad call") (String.split_on_char '|' calls) in
+         (match producer_frame_fb (b fbfix) (b atpos) cfg (b ers) (b fb) cl (parse_rep rep) N0 (parse_dec dec) with
+          | Done blks ->
+            Printf.printf "%s OK %s\n" id
+              (if blks = [] then "-" else String.concat "|" (List.map (fun k ->
+                   Printf.sprintf "%d/%d/%d/%d/%s/%s" (i k.b_size) (i k.b_lastLL) (if k.b_tiny then 1 else 0)
+                     (if k.b_last then 1 else 0) (rep_str k.b_rep_in) (sseqs_str k.b_seqs)) blks))
+          | Invalid s -> Printf.printf "%s INVALID %d\n" id (i s)
+          | Oob s -> Printf.printf "%s OOB %d\n" id (i s))
        | ["PP"; id; nb; cap; srcsize; seqs] ->
          (match post_process (parse_seqs seqs) (n nb) (n cap) (n srcsize) with
           | PPok l -> Printf.printf "%s OK %s\n" id (zseqs_str l)
